@@ -41,6 +41,15 @@ def gen(rng, tier):
         delta = [[c, a, rng.choice(copies[t])] for (q, a, t) in base['delta'] for c in copies[q]]
         ds.append({'Q': Q, 'Sigma': list(sigma), 'delta': delta, 'q0': copies[base['q0']][0], 'F': [c for q in base['F'] for c in copies[q]]})
     ds = [G.retag(d, rng) if i % 6 == 2 and len(d['Q']) <= 6 else d for i, d in enumerate(ds)]
+    for _ in range(60 if quick else 1000):
+        d = G.random_dfa(rng, rng.randint(3, 5), rng.choice(['a', 'ab']), pfinal=0.5)
+        a, b, c = rng.sample(d['Q'], 3)
+        m = {q: q for q in d['Q']}
+        m[c] = '{%s}' % ','.join(sorted([a, b]))            # e.g. the states q0, q1, q2 and a state named {q0,q1}
+        if rng.random() < 0.4:                                # make a and b equivalent: same successors, same acceptance
+            d['delta'] = [[q, s_, t] for q, s_, t in d['delta'] if q != b] + [[b, s_, t] for q, s_, t in d['delta'] if q == a]
+            d['F'] = [q for q in d['F'] if q != b] + ([b] if a in d['F'] else [])
+        ds.append({'Q': [m[q] for q in d['Q']], 'Sigma': d['Sigma'], 'delta': [[m[q], s_, m[t]] for q, s_, t in d['delta']], 'q0': m[d['q0']], 'F': [m[q] for q in d['F']]})
     cases = [{'D': d, 'log': i % 2 == 1} for i, d in enumerate(ds)]
     # the same object is minimised, modified in place (accepting set, transitions) and minimised again
     for i in range(100 if quick else 1500):
